@@ -176,6 +176,10 @@ def formula_clause(model, rep, funcs):
             cut = T("param", ("cutoff",))
             ok2 = False
             det2 = f"per-axis term {el!r}"[:220]
+            # a re-ordering of the samples commutes with an element-wise power: ifftshift(x) ** 2 is ifftshift(x ** 2)
+            if isinstance(el, T) and el.op == "op" and el.args[0] == "Pow" and isinstance(el.args[1], T) and callee_name(el.args[1]) == "ifftshift" and el.args[1].args[1]:
+                sh_ = el.args[1]
+                el = T("call", (sh_.args[0], (T("op", ("Pow", sh_.args[1][0], el.args[2])),) + tuple(sh_.args[1][1:]), sh_.args[2]))
             if isinstance(el, T) and callee_name(el) == "ifftshift" and el.args[1]:
                 pw = el.args[1][0]
                 if isinstance(pw, T) and pw.op == "op" and pw.args[0] == "Pow" and pw.args[2] == T("const", ("2",)):
